@@ -625,11 +625,9 @@ example :
 /- FULL: the same for histories that also contain `update` (any notation), assignments of dicts / None to sub-objects and
    `display.style.reset()` on the defaults, and for the objects' own styles.  Those operations re-build sub-objects from
    their dictionaries; that this changes no other leaf needs `construct` to be idempotent on every reached state
-   (stability preserved by every operation).  Its first half is proved below (`reachable_states_wellformed`: every
-   reached state is schema-shaped and every stored leaf a fixpoint of its validator); the second half — on such a state
-   `construct` rebuilds the tree identically, which needs `magic_to_dict` = identity on well-keyed trees and the
-   constructor's keyword reordering — is not; stability is proved for the states at import time and observed by the
-   `sstate` stream on every final state.  Proved here: histories in which `magpylib.defaults` itself is
+   (stability preserved by every operation): `reachable_states_wellformed` below and `reachable_states_stable` in
+   Props/C20d.lean.  The refinement for the full operation set is `C20d.reads_refine`; the theorem here is its special
+   case for leaf assignments on `magpylib.defaults`, kept because it needs no hypothesis on the other objects' operations.  Proved here: histories in which `magpylib.defaults` itself is
    changed by assignments to plain properties at any depth (accepted or rejected), `reset()` and reads — with ARBITRARY
    operations on the objects in between. -/
 
@@ -826,7 +824,7 @@ example :
 as keys, in `dir()` order, recursively for every sub-object, and every stored leaf value is a fixpoint of its own
 validator (assigning it again stores it again) -/
 def WFW (w : World) : Prop :=
-  ∀ (i : Nat) (o : Obj), w[i]? = some o → ∃ c, classes[o.cls]? = some c ∧ wfKids tables c.schema.props o.tree = true
+  ∀ (i : Nat) (o : Obj), w[i]? = some o → ∃ c, classes[o.cls]? = some c ∧ wfKids (fixB tables) c.schema.props o.tree = true
 
 /-- computed over the regenerated validator table (22 rows × 86 values): whatever a setter stores, it stores unchanged
 when it is assigned again — None, every panel value, the dict case -/
@@ -841,7 +839,7 @@ def isObjSchema : Schema → Bool
 
 theorem classes_wellformed :
     classes.all (fun c => okSchema c.schema && isOkD (newTree tables c) && isObjSchema c.schema) = true ∧
-    wfKids tables props0 resetResult.1 = true := by
+    wfKids (fixB tables) props0 resetResult.1 = true := by
   decide +kernel
 
 theorem okProps_of_okSchema {s : Schema} (h : okSchema s = true) : okProps s.props = true := by
@@ -859,7 +857,7 @@ theorem class_ok {c : ClassInfo} (hc : c ∈ classes) : okProps c.schema.props =
   exact okProps_of_okSchema this.1.1
 
 theorem onObj_wfw (f : List (Key × Schema) → List Str → Dict → Dict × Except Kind Unit)
-    (hf : ∀ ps os c, okProps ps = true → wfKids tables ps c = true → wfKids tables ps (f ps os c).1 = true)
+    (hf : ∀ ps os c, okProps ps = true → wfKids (fixB tables) ps c = true → wfKids (fixB tables) ps (f ps os c).1 = true)
     (w : World) (i : Nat) (h : WFW w) : WFW (onObj classes w i f).1 := by
   unfold onObj
   cases hw : w[i]? with
